@@ -139,10 +139,10 @@ def coqchk(ctx, modules):
         axs = ax.group(1).strip() if ax else "?"
         bad = [k for k in ("type-in-type", "unsafe (co)fixpoints", "positivity is assumed") if not re.search(re.escape(k) + r":\s*<none>", out)]
         return m, rc, axs, bad, out[-300:]
-    with ThreadPoolExecutor(max_workers=4) as ex:
+    with ThreadPoolExecutor(max_workers=2) as ex:
         for m, rc, axs, bad, tail in ex.map(one, modules):
-            if rc == 124:
-                # the independent checker did not finish within its time limit: not a verdict either way; coqc's own check stands
+            if rc == 124 or rc < 0 or rc == 137:
+                # the independent checker did not finish (time limit, or killed for memory): not a verdict either way; coqc's own check stands
                 ctx.notes.append("coqchk PIQP.%s: not finished within the time limit (no verdict)" % m)
                 continue
             ok = rc == 0 and axs == "<none>" and not bad
